@@ -14,6 +14,7 @@ MON_DATA = {
     "euler": ["density", "pressure", "mach", "velocity", "massflow"],
     "shallowwater": ["height", "velocity", "massflow"],
     "euler2d": ["density", "pressure", "mach", "velocity_x", "velocity_y"],
+    "nozzle": ["density", "pressure", "mach", "velocity", "massflow"],
 }
 PLACEMENT_KINDS = ["start", "start_minus", "inside", "twice", "burst", "boundary",
                    "sumboundary", "stop", "beyond", "lin"]
@@ -49,8 +50,9 @@ def gen_world(rng, prop):
         speed = 1.0
         dxmin = 0.125
     else:
-        ncell = rng.choice([3, 4, 5, 6, 8, 10])
-        mk = wchoice(rng, [("convection", 33), ("burgers", 22), ("euler", 22), ("shallowwater", 13), ("euler2d", 10)])
+        ncell = rng.choice([3, 4, 5, 6, 8, 10, 16, 32])
+        mk = wchoice(rng, [("convection", 30), ("burgers", 20), ("euler", 20), ("shallowwater", 12), ("euler2d", 9),
+                           ("nozzle", 9)])
         if mk == "convection":
             a = rng.choice([1.0, -1.0, 2.0, 0.5])
             w["model"] = {"kind": mk, "a": fhex(a)}
@@ -63,6 +65,9 @@ def gen_world(rng, prop):
             speed = 2.0
         elif mk == "euler2d":
             w["model"] = {"kind": mk, "flux": rng.choice(["hlle", "centered"])}
+            speed = 2.0
+        elif mk == "nozzle":
+            w["model"] = {"kind": mk, "flux": rng.choice(["hllc", "hlle"]), "slope": fhex(rng.choice([0.3, -0.2, 0.0]))}
             speed = 2.0
         else:
             w["model"] = {"kind": mk, "flux": rng.choice(["hll", "rusanov"])}
@@ -82,6 +87,15 @@ def gen_world(rng, prop):
         w["num"] = wchoice(rng, [("extrapol1", 40), ("extrapol3", 25), ("muscl_minmod", 20), ("muscl_vanleer", 15)])
         if mk == "euler2d":
             w["num"] = rng.choice(["extrapol2d1", "extrapol2dk"])
+        # boundary conditions: periodic mostly; the driver must not care
+        if mk in ("euler", "nozzle"):
+            w["bc"] = wchoice(rng, [("per", 50 if mk == "euler" else 10), ("sym", 20), ("inout", 20), ("dirichlet", 10)])
+        elif mk == "shallowwater":
+            w["bc"] = wchoice(rng, [("per", 60), ("sym", 30), ("dirichlet", 10)])
+        elif mk in ("convection", "burgers"):
+            w["bc"] = wchoice(rng, [("per", 75), ("dirichlet", 25)])
+        if rng.random() < 0.3:
+            w["share_model"] = True
     mkind = w["model"]["kind"]
     # solvers
     ns = wchoice(rng, [(1, 60), (2, 30), (3, 10)] if prop == "C07" else [(1, 50), (2, 35), (3, 15)])
@@ -96,6 +110,8 @@ def gen_world(rng, prop):
             cls = rng.choice(EXPLICIT)
         if mkind == "euler2d" and cls in IMPLICIT:
             cls = rng.choice(EXPLICIT)  # the finite-difference Jacobian does not support vector data
+        if w["mesh"].get("ncell", 0) > 12 and cls in IMPLICIT:
+            cls = rng.choice(EXPLICIT)  # keep the O(n^2) finite-difference Jacobians cheap
         s = {"cls": cls, "disc": 0 if shared else i}
         if rng.random() < 0.2:
             s["cmon"] = gen_monspec(rng, mkind, 1)
@@ -121,7 +137,7 @@ def gen_world(rng, prop):
         f = {"profile": prof, "base": fhex(base), "amp": fhex(amp), "k": rng.choice([1, 1, 2]),
              "u0": fhex(wchoice(rng, [(0.0, 10), (0.3, 35), (-0.5, 35), (0.1, 20)])),
              "t0": fhex(t0 if (i == 0 or rng.random() < 0.7) else rng.choice([0.0, 1.0, 0.375])),
-             "it": wchoice(rng, [(-1, 80), (0, 8), (5, 12)])}
+             "it": wchoice(rng, [(-1, 78), (0, 8), (5, 10), (100, 4)])}
         fields.append(f)
     w["fields"] = fields
     # tick table
@@ -169,7 +185,7 @@ def gen_monspec(rng, mkind, nmax=2):
             name = "m%d_%s" % (j, typ[:3])
             e["type"] = typ
         if rng.random() < 0.85:
-            e["frequency"] = rng.choice([1, 1, 2, 3, 5, 7, 4])
+            e["frequency"] = rng.choice([1, 1, 2, 3, 5, 7, 4, 10, 25])
         if typ == "data_average":
             e["data"] = rng.choice(MON_DATA[mkind])
         spec[name] = e
@@ -255,6 +271,8 @@ def gen_op(rng, prop, world, idx, mask, nres_ops):
         return op
     op["cfl"] = fhex(gen_cfl(rng, world, cls) if rng.random() < 0.35 else float.fromhex(world["cfl"]))
     n = wchoice(rng, [(1, 12), (2, 15), (3, 18), (4, 12), (6, 15), (9, 12), (14, 8), (25, 6), (0, 2)])
+    if world["mode"] == "stub" and rng.random() < 0.04:
+        n = rng.choice([60, 120, 250])  # long runs where they are cheap
     op["horizon"] = n
     sk = wchoice(rng, [("default", 35), ("tottime", 25), ("maxit", 20), ("both", 15), ("degenerate", 5)])
     stop = None
@@ -272,7 +290,9 @@ def gen_op(rng, prop, world, idx, mask, nres_ops):
     op["stop"] = stop
     op["stop_kind"] = sk
     op["tsave"] = gen_tsave(rng, n, mask, stop is not None and "tottime" in stop, sk == "default")
-    op["tsave_type"] = wchoice(rng, [("list", 60), ("ndarray", 30), ("tuple", 10)])
+    op["tsave_type"] = wchoice(rng, [("list", 55), ("ndarray", 27), ("tuple", 9), ("npscalars", 9)])
+    if rng.random() < 0.1:
+        op["np_args"] = True  # cfl / maxit / tottime handed over as numpy scalars
     pm = 0.25 if prop == "C07" else 0.45
     if "mon" in mask and rng.random() < pm:
         op["mon"] = gen_monspec(rng, mkind, 2)
